@@ -17,6 +17,8 @@ namespace SoyVerif.Lemmas.LexPrint
 open SoyVerif SoyVerif.Model SoyVerif.Model.Lex SoyVerif.Model.PrintTokens
 open SoyVerif.Lemmas.ParserAdj
 
+variable {tg : Int}
+
 /-- what the proofs use of the generated lexer tables -/
 structure LexTableOK : Prop where
   /-- `unicode.IsLetter` / `unicode.IsDigit` on ASCII -/
@@ -47,19 +49,19 @@ theorem asciiHd_cons {b : UInt8} {s : Bytes} (h : b < 128) : AsciiHd (b :: s) :=
 def itemOf (t : Tk) (pe : Nat) : Item := ⟨t.typ, pe, t.val⟩
 
 /-- one transition `lexInsideTag → lexInsideTag` that emits `t` (which starts at `p`) -/
-def Step1 (inp : Array UInt8) (p : Nat) (le : Item) (its : Array Item) (t : Tk) : Prop :=
-  ∀ w, ∃ w', step .insideTag (L inp p p w le its) =
-    some (some .insideTag, L inp (p + t.val.length) (p + t.val.length) w' (itemOf t (p + t.val.length))
+def Step1 (tg : Int) (inp : Array UInt8) (p : Nat) (le : Item) (its : Array Item) (t : Tk) : Prop :=
+  ∀ w, ∃ w', step .insideTag (L tg inp p p w le its) =
+    some (some .insideTag, L tg inp (p + t.val.length) (p + t.val.length) w' (itemOf t (p + t.val.length))
       (its.push (itemOf t (p + t.val.length))))
 
 /-- `(` `)` `*` `%` `+` `:` -/
 theorem step_single {inp p b s} (h : InpAt inp p (b :: s)) (ty : ItemType)
     (hb : b = 40 ∨ b = 41 ∨ b = 42 ∨ b = 37 ∨ b = 43 ∨ b = 58)
     (hs : Gen.symbols.lookup [b] = some ty) (le its) :
-    Step1 inp p le its ⟨ty, [b]⟩ := by
+    Step1 tg inp p le its ⟨ty, [b]⟩ := by
   intro w
   refine ⟨1, ?_⟩
-  have he := emit_L (inp := inp) (st := p) (v := [b]) (s := s) h (pe := p + 1) rfl 1 le its ty
+  have he := emit_L (tg := tg) (inp := inp) (st := p) (v := [b]) (s := s) h (pe := p + 1) rfl 1 le its ty
   rcases hb with rfl | rfl | rfl | rfl | rfl | rfl <;>
   · simp only [step, lexInsideTag, next_L h (by decide), Option.bind_eq_bind, Option.bind_some]
     simp [isSpaceEOL, isSpace, isEndOfLine, lexInsideTagMid, emitInside, hs, he, itemOf]
@@ -68,10 +70,10 @@ theorem step_single {inp p b s} (h : InpAt inp p (b :: s)) (ty : ItemType)
 theorem step_bracket {inp p b s} (h : InpAt inp p (b :: s)) (ty : ItemType)
     (hb : (b = 91 ∧ ty = .tLeftBracket) ∨ (b = 93 ∧ ty = .tRightBracket) ∨ (b = 44 ∧ ty = .tComma) ∨
       (b = 124 ∧ ty = .tPipe)) (le its) :
-    Step1 inp p le its ⟨ty, [b]⟩ := by
+    Step1 tg inp p le its ⟨ty, [b]⟩ := by
   intro w
   refine ⟨1, ?_⟩
-  have he := emit_L (inp := inp) (st := p) (v := [b]) (s := s) h (pe := p + 1) rfl 1 le its ty
+  have he := emit_L (tg := tg) (inp := inp) (st := p) (v := [b]) (s := s) h (pe := p + 1) rfl 1 le its ty
   rcases hb with ⟨rfl, rfl⟩ | ⟨rfl, rfl⟩ | ⟨rfl, rfl⟩ | ⟨rfl, rfl⟩ <;>
   · simp only [step, lexInsideTag, next_L h (by decide), Option.bind_eq_bind, Option.bind_some]
     simp [isSpaceEOL, isSpace, isEndOfLine, lexInsideTagMid, lexInsideTagRest, emitInside, he, itemOf,
@@ -79,53 +81,53 @@ theorem step_bracket {inp p b s} (h : InpAt inp p (b :: s)) (ty : ItemType)
 
 /-- `/` followed by a space -/
 theorem step_div (T : LexTableOK) {inp p s} (h : InpAt inp p (47 :: 32 :: s)) (le its) :
-    Step1 inp p le its ⟨.tDiv, [47]⟩ := by
+    Step1 tg inp p le its ⟨.tDiv, [47]⟩ := by
   intro w
   refine ⟨1, ?_⟩
-  have he := emit_L (inp := inp) (st := p) (v := [47]) (s := 32 :: s) h (pe := p + 1) rfl 1 le its .tDiv
-  have hp := peek_hd (inpAt_tail h) (asciiHd_cons (by decide)) p 1 le its
+  have he := emit_L (tg := tg) (inp := inp) (st := p) (v := [47]) (s := 32 :: s) h (pe := p + 1) rfl 1 le its .tDiv
+  have hp := peek_hd (tg := tg) (inpAt_tail h) (asciiHd_cons (by decide)) p 1 le its
   simp only [step, lexInsideTag, next_L h (by decide), Option.bind_eq_bind, Option.bind_some, hp]
   simp [isSpaceEOL, isSpace, isEndOfLine, lexInsideTagMid, emitInside, T.sym1.2.2.2.2.2.2, he, itemOf, hdRune, hdW]
 
 /-- `?[` -/
 theorem step_qkey {inp p s} (h : InpAt inp p (63 :: 91 :: s)) (le its) :
-    Step1 inp p le its tQKey := by
+    Step1 tg inp p le its tQKey := by
   intro w
   refine ⟨1, ?_⟩
-  have he := emit_L (inp := inp) (st := p) (v := [63, 91]) (s := s) h (pe := p + 1 + 1) rfl 1 le its .tQuestionKey
-  have hn := next_L (inpAt_tail h) (by decide) p 1 le its
+  have he := emit_L (tg := tg) (inp := inp) (st := p) (v := [63, 91]) (s := s) h (pe := p + 1 + 1) rfl 1 le its .tQuestionKey
+  have hn := next_L (tg := tg) (inpAt_tail h) (by decide) p 1 le its
   simp only [step, lexInsideTag, next_L h (by decide), Option.bind_eq_bind, Option.bind_some]
   simp [isSpaceEOL, isSpace, isEndOfLine, lexInsideTagMid, emitInside, hn, he, itemOf, tQKey]
 
 /-- `?:` -/
 theorem step_elvis {inp p s} (h : InpAt inp p (63 :: 58 :: s)) (le its) :
-    Step1 inp p le its ⟨.tElvis, [63, 58]⟩ := by
+    Step1 tg inp p le its ⟨.tElvis, [63, 58]⟩ := by
   intro w
   refine ⟨1, ?_⟩
-  have he := emit_L (inp := inp) (st := p) (v := [63, 58]) (s := s) h (pe := p + 1 + 1) rfl 1 le its .tElvis
-  have hn := next_L (inpAt_tail h) (by decide) p 1 le its
+  have he := emit_L (tg := tg) (inp := inp) (st := p) (v := [63, 58]) (s := s) h (pe := p + 1 + 1) rfl 1 le its .tElvis
+  have hn := next_L (tg := tg) (inpAt_tail h) (by decide) p 1 le its
   simp only [step, lexInsideTag, next_L h (by decide), Option.bind_eq_bind, Option.bind_some]
   simp [isSpaceEOL, isSpace, isEndOfLine, lexInsideTagMid, emitInside, hn, he, itemOf]
 
 /-- `?` followed by a space -/
 theorem step_ternif {inp p s} (h : InpAt inp p (63 :: 32 :: s)) (le its) :
-    Step1 inp p le its tTernIf := by
+    Step1 tg inp p le its tTernIf := by
   intro w
   refine ⟨1, ?_⟩
-  have he := emit_L (inp := inp) (st := p) (v := [63]) (s := 32 :: s) h (pe := p + 1) rfl 1 le its .tTernIf
-  have hn := next_L (inpAt_tail h) (by decide) p 1 le its
+  have he := emit_L (tg := tg) (inp := inp) (st := p) (v := [63]) (s := 32 :: s) h (pe := p + 1) rfl 1 le its .tTernIf
+  have hn := next_L (tg := tg) (inpAt_tail h) (by decide) p 1 le its
   simp only [step, lexInsideTag, next_L h (by decide), Option.bind_eq_bind, Option.bind_some]
   simp [isSpaceEOL, isSpace, isEndOfLine, lexInsideTagMid, emitInside, hn, he, itemOf, tTernIf, backup_L]
 
 /-- `<` `>` followed by a space -/
 theorem step_cmp1 {inp p b s} (h : InpAt inp p (b :: 32 :: s)) (ty : ItemType)
     (hb : b = 60 ∨ b = 62) (hs : Gen.symbols.lookup [b] = some ty) (le its) :
-    Step1 inp p le its ⟨ty, [b]⟩ := by
+    Step1 tg inp p le its ⟨ty, [b]⟩ := by
   intro w
   refine ⟨1, ?_⟩
-  have he := emit_L (inp := inp) (st := p) (v := [b]) (s := 32 :: s) h (pe := p + 1) rfl 1 le its ty
-  have ha := accept_no (inpAt_tail h) (asciiHd_cons (by decide)) symbolChars (by simp only [hdRune]; decide) p 1 le its
-  have hsl := slice_L (inp := inp) (st := p) (v := [b]) (s := 32 :: s) h (pe := p + 1) rfl 1 le its
+  have he := emit_L (tg := tg) (inp := inp) (st := p) (v := [b]) (s := 32 :: s) h (pe := p + 1) rfl 1 le its ty
+  have ha := accept_no (tg := tg) (inpAt_tail h) (asciiHd_cons (by decide)) symbolChars (by simp only [hdRune]; decide) p 1 le its
+  have hsl := slice_L (tg := tg) (inp := inp) (st := p) (v := [b]) (s := 32 :: s) h (pe := p + 1) rfl 1 le its
   rcases hb with rfl | rfl <;>
   · simp only [step, lexInsideTag, next_L h (by decide), Option.bind_eq_bind, Option.bind_some]
     simp [isSpaceEOL, isSpace, isEndOfLine, lexInsideTagMid, lexSymbol, ha, hdW, hsl, emitInside, hs, he, itemOf]
@@ -133,36 +135,36 @@ theorem step_cmp1 {inp p b s} (h : InpAt inp p (b :: 32 :: s)) (ty : ItemType)
 /-- `<=` `>=` `!=` -/
 theorem step_cmp2 {inp p b s} (h : InpAt inp p (b :: 61 :: s)) (ty : ItemType)
     (hb : b = 60 ∨ b = 62 ∨ b = 33) (hs : Gen.symbols.lookup [b, 61] = some ty) (le its) :
-    Step1 inp p le its ⟨ty, [b, 61]⟩ := by
+    Step1 tg inp p le its ⟨ty, [b, 61]⟩ := by
   intro w
   refine ⟨1, ?_⟩
-  have he := emit_L (inp := inp) (st := p) (v := [b, 61]) (s := s) h (pe := p + 1 + 1) rfl 1 le its ty
-  have ha := accept_yes (inpAt_tail h) (by decide) symbolChars (by decide) p 1 le its
-  have hsl := slice_L (inp := inp) (st := p) (v := [b, 61]) (s := s) h (pe := p + 1 + 1) rfl 1 le its
+  have he := emit_L (tg := tg) (inp := inp) (st := p) (v := [b, 61]) (s := s) h (pe := p + 1 + 1) rfl 1 le its ty
+  have ha := accept_yes (tg := tg) (inpAt_tail h) (by decide) symbolChars (by decide) p 1 le its
+  have hsl := slice_L (tg := tg) (inp := inp) (st := p) (v := [b, 61]) (s := s) h (pe := p + 1 + 1) rfl 1 le its
   rcases hb with rfl | rfl | rfl <;>
   · simp only [step, lexInsideTag, next_L h (by decide), Option.bind_eq_bind, Option.bind_some]
     simp [isSpaceEOL, isSpace, isEndOfLine, lexInsideTagMid, lexSymbol, ha, hsl, emitInside, hs, he, itemOf]
 
 /-- `==` -/
 theorem step_eq {inp p s} (h : InpAt inp p (61 :: 61 :: s)) (hs : Gen.symbols.lookup [61, 61] = some .tEq) (le its) :
-    Step1 inp p le its ⟨.tEq, [61, 61]⟩ := by
+    Step1 tg inp p le its ⟨.tEq, [61, 61]⟩ := by
   intro w
   refine ⟨1, ?_⟩
-  have he := emit_L (inp := inp) (st := p) (v := [61, 61]) (s := s) h (pe := p + 1 + 1) rfl 1 le its .tEq
-  have hp := peek_hd (inpAt_tail h) (asciiHd_cons (by decide)) p 1 le its
-  have ha := accept_yes (inpAt_tail h) (by decide) symbolChars (by decide) p 1 le its
-  have hsl := slice_L (inp := inp) (st := p) (v := [61, 61]) (s := s) h (pe := p + 1 + 1) rfl 1 le its
+  have he := emit_L (tg := tg) (inp := inp) (st := p) (v := [61, 61]) (s := s) h (pe := p + 1 + 1) rfl 1 le its .tEq
+  have hp := peek_hd (tg := tg) (inpAt_tail h) (asciiHd_cons (by decide)) p 1 le its
+  have ha := accept_yes (tg := tg) (inpAt_tail h) (by decide) symbolChars (by decide) p 1 le its
+  have hsl := slice_L (tg := tg) (inp := inp) (st := p) (v := [61, 61]) (s := s) h (pe := p + 1 + 1) rfl 1 le its
   simp only [step, lexInsideTag, next_L h (by decide), Option.bind_eq_bind, Option.bind_some]
   simp [isSpaceEOL, isSpace, isEndOfLine, lexInsideTagMid, lexSymbol, hp, hdRune, hdW, ha, hsl, emitInside, hs, he, itemOf]
 
 /-- binary `-`: the previous token is one an operand ends with -/
 theorem step_sub {inp p s} (h : InpAt inp p (45 :: s)) (le its)
     (hprev : Gen.unaryMinusAfter.contains le.typ = false) :
-    Step1 inp p le its ⟨.tSub, [45]⟩ := by
+    Step1 tg inp p le its ⟨.tSub, [45]⟩ := by
   intro w
   refine ⟨1, ?_⟩
-  have he := emit_L (inp := inp) (st := p) (v := [45]) (s := s) h (pe := p + 1) rfl 1 le its .tSub
-  have hl : (L inp (p + 1) p 1 le its).lastEmit = le := rfl
+  have he := emit_L (tg := tg) (inp := inp) (st := p) (v := [45]) (s := s) h (pe := p + 1) rfl 1 le its .tSub
+  have hl : (L tg inp (p + 1) p 1 le its).lastEmit = le := rfl
   simp only [step, lexInsideTag, next_L h (by decide), Option.bind_eq_bind, Option.bind_some]
   simp only [isSpaceEOL, isSpace, isEndOfLine, lexInsideTagMid, lexNegative, hl, hprev]
   simp [he, itemOf]
@@ -170,13 +172,13 @@ theorem step_sub {inp p s} (h : InpAt inp p (45 :: s)) (le its)
 /-- unary `-`: the previous token is one that precedes an operand, and no digit follows -/
 theorem step_neg {inp p s} (h : InpAt inp p (45 :: s)) (ha : AsciiHd s) (hd : hdRune s < 48 ∨ 57 < hdRune s) (le its)
     (hprev : Gen.unaryMinusAfter.contains le.typ = true) :
-    Step1 inp p le its tNeg := by
+    Step1 tg inp p le its tNeg := by
   intro w
   refine ⟨hdW s, ?_⟩
-  have he := emit_L (inp := inp) (st := p) (v := [45]) (s := s) h (pe := p + 1) rfl (hdW s) le its .tNegate
-  have hp := peek_hd (inpAt_tail h) ha p 1 le its
-  have hp2 := peek_hd (inpAt_tail h) ha p (hdW s) le its
-  have hl : (L inp (p + 1) p 1 le its).lastEmit = le := rfl
+  have he := emit_L (tg := tg) (inp := inp) (st := p) (v := [45]) (s := s) h (pe := p + 1) rfl (hdW s) le its .tNegate
+  have hp := peek_hd (tg := tg) (inpAt_tail h) ha p 1 le its
+  have hp2 := peek_hd (tg := tg) (inpAt_tail h) ha p (hdW s) le its
+  have hl : (L tg inp (p + 1) p 1 le its).lastEmit = le := rfl
   simp only [step, lexInsideTag, next_L h (by decide), Option.bind_eq_bind, Option.bind_some]
   simp only [isSpaceEOL, isSpace, isEndOfLine, lexInsideTagMid, lexNegative, hl, hprev]
   simp only [hp]
@@ -271,14 +273,14 @@ theorem identRest_word (T : LexTableOK) {inp st} {pre k rest : Bytes} (h : InpAt
     (hl : (Gen.builtinIdents.lookup (pre ++ k) = some rt ∧ rt ≠ .tLiteral ∧ rt ≠ .tCss) ∨
           (Gen.builtinIdents.lookup (pre ++ k) = none ∧ rt = ty ∧ ty ≠ .tCommandEnd ∧ ty ≠ .tSpecialChar))
     (w le its) :
-    lexIdentRest (L inp (st + pre.length) st w le its) ty =
-      some (some .insideTag, L inp (st + (pre ++ k).length) (st + (pre ++ k).length) (hdW rest)
+    lexIdentRest (L tg inp (st + pre.length) st w le its) ty =
+      some (some .insideTag, L tg inp (st + (pre ++ k).length) (st + (pre ++ k).length) (hdW rest)
         ⟨rt, st + (pre ++ k).length, pre ++ k⟩ (its.push ⟨rt, st + (pre ++ k).length, pre ++ k⟩)) := by
   have h' : InpAt inp (st + pre.length) (k ++ rest) := inpAt_append (by simpa using h)
-  have hsc := scan_runes (fun r hr => alnumR_true T hr) k.length k hk h' (wordEnd_ascii hr) (alnum_false T hr) st w le its
+  have hsc := scan_runes (tg := tg) (fun r hr => alnumR_true T hr) k.length k hk h' (wordEnd_ascii hr) (alnum_false T hr) st w le its
   have hpe : st + pre.length + k.length = st + (pre ++ k).length := by simp; omega
-  have hsl := slice_L h (pe := st + pre.length + k.length) hpe (hdW rest) le its
-  have he := emit_L h (pe := st + pre.length + k.length) hpe (hdW rest) le its rt
+  have hsl := slice_L (tg := tg) h (pe := st + pre.length + k.length) hpe (hdW rest) le its
+  have he := emit_L (tg := tg) h (pe := st + pre.length + k.length) hpe (hdW rest) le its rt
   unfold lexIdentRest
   simp only [hsc, Option.bind_eq_bind, Option.bind_some, backup_hd, hsl]
   rw [hpe] at he
@@ -290,9 +292,9 @@ theorem identRest_word (T : LexTableOK) {inp st} {pre k rest : Bytes} (h : InpAt
     simp only [emitInside, he, Option.bind_eq_bind, Option.bind_some, Option.pure_def]
 
 /-- two transitions `lexInsideTag → s → lexInsideTag` that emit `t` (which starts at `p`) -/
-def Step2 (inp : Array UInt8) (p : Nat) (le : Item) (its : Array Item) (t : Tk) : Prop :=
-  ∀ w, ∃ w' s1 l1, step .insideTag (L inp p p w le its) = some (some s1, l1) ∧
-    step s1 l1 = some (some .insideTag, L inp (p + t.val.length) (p + t.val.length) w' (itemOf t (p + t.val.length))
+def Step2 (tg : Int) (inp : Array UInt8) (p : Nat) (le : Item) (its : Array Item) (t : Tk) : Prop :=
+  ∀ w, ∃ w' s1 l1, step .insideTag (L tg inp p p w le its) = some (some s1, l1) ∧
+    step s1 l1 = some (some .insideTag, L tg inp (p + t.val.length) (p + t.val.length) w' (itemOf t (p + t.val.length))
       (its.push (itemOf t (p + t.val.length))))
 
 theorem lookup_none {l : List (Bytes × ItemType)} {w : Bytes} (h : ∀ kv ∈ l, kv.1 ≠ w) : l.lookup w = none := by
@@ -319,12 +321,12 @@ theorem step_word (T : LexTableOK) {inp p} {c : UInt8} {k rest : Bytes} (h : Inp
     (hc : isIdStart c = true) (hk : alnumBytes k = true) (hr : WordEnd rest) (rt : ItemType)
     (hl : (Gen.builtinIdents.lookup (c :: k) = some rt ∧ rt ≠ .tLiteral ∧ rt ≠ .tCss) ∨
           (Gen.builtinIdents.lookup (c :: k) = none ∧ rt = .tIdent)) (le its) :
-    Step2 inp p le its ⟨rt, c :: k⟩ := by
+    Step2 tg inp p le its ⟨rt, c :: k⟩ := by
   intro w
   have hn := isIdStart_nat hc
   have hc8 : c < 128 := by show c.toNat < 128; omega
   have h0 : InpAt inp p (c :: (k ++ rest)) := by simpa using h
-  refine ⟨hdW rest, .ident, L inp p p 1 le its, ?_, ?_⟩
+  refine ⟨hdW rest, .ident, L tg inp p p 1 le its, ?_, ?_⟩
   · simp only [step, lexInsideTag, next_L h0 hc8, Option.bind_eq_bind, Option.bind_some]
     have hsp : isSpaceEOL (c.toNat : Int) = false := by
       simp only [isSpaceEOL, isSpace, isEndOfLine, Bool.or_eq_false_iff, beq_eq_false_iff_ne]; omega
@@ -338,7 +340,7 @@ theorem step_word (T : LexTableOK) {inp p} {c : UInt8} {k rest : Bytes} (h : Inp
     unfold lexInsideTagRest
     rw [if_neg (by omega), if_neg (by omega), if_neg (by simp only [eof]; omega), if_neg (by omega), if_pos hlu]
     simp only [Option.pure_def, backup_L]
-  · have hr1 := identRest_word T (pre := [c]) (k := k) (rest := rest) (st := p) h hk hr .tIdent rt
+  · have hr1 := identRest_word (tg := tg) T (pre := [c]) (k := k) (rest := rest) (st := p) h hk hr .tIdent rt
       (by rcases hl with hl | ⟨hl, rfl⟩
           · exact Or.inl hl
           · exact Or.inr ⟨hl, rfl, by simp, by simp⟩) 1 le its
@@ -350,17 +352,17 @@ theorem step_word (T : LexTableOK) {inp p} {c : UInt8} {k rest : Bytes} (h : Inp
 theorem step_dollar (T : LexTableOK) {inp p} {c : UInt8} {k rest : Bytes} (h : InpAt inp p ((36 :: c :: k) ++ rest))
     (hk : alnumBytes (c :: k) = true) (hl : ∀ r w, runeAt (c :: k) = some (r, w) → letterR r = true)
     (hr : WordEnd rest) (le its) :
-    Step2 inp p le its ⟨.tDollarIdent, 36 :: c :: k⟩ := by
+    Step2 tg inp p le its ⟨.tDollarIdent, 36 :: c :: k⟩ := by
   intro w
   obtain ⟨r, wd, hrune, _⟩ := alnumBytes_cons_rune hk
   have h0 : InpAt inp p (36 :: (c :: (k ++ rest))) := by simpa using h
   have h1 : InpAt inp (p + 1) ((c :: k) ++ rest) := by simpa using inpAt_tail h0
-  refine ⟨hdW rest, .ident, L inp p p 1 le its, ?_, ?_⟩
+  refine ⟨hdW rest, .ident, L tg inp p p 1 le its, ?_, ?_⟩
   · simp only [step, lexInsideTag, next_L h0 (by decide), Option.bind_eq_bind, Option.bind_some]
     simp [isSpaceEOL, isSpace, isEndOfLine, lexInsideTagMid, backup_L]
-  · have hr1 := identRest_word T (pre := [36]) (k := c :: k) (rest := rest) (st := p) h hk hr .tDollarIdent .tDollarIdent
+  · have hr1 := identRest_word (tg := tg) T (pre := [36]) (k := c :: k) (rest := rest) (st := p) h hk hr .tDollarIdent .tDollarIdent
       (Or.inr ⟨lookup_special T 36 _ (Or.inl rfl), rfl, by simp, by simp⟩) (wd : Int) le its
-    have hp : (L inp (p + 1) p 1 le its).peek = some ((r : Int), L inp (p + 1) p (wd : Int) le its) := by
+    have hp : (L tg inp (p + 1) p 1 le its).peek = some ((r : Int), L tg inp (p + 1) p (wd : Int) le its) := by
       unfold Lexer.peek
       rw [next_rune h1 (runeAt_append rest hrune)]
       simp only [Option.bind_eq_bind, Option.bind_some, Option.pure_def, backup_Lw]
@@ -386,15 +388,15 @@ theorem letterR_notDigit {r : Nat} (h : letterR r = true) : isDigit (r : Int) = 
 theorem step_dot (T : LexTableOK) {inp p} {c : UInt8} {k rest : Bytes} (h : InpAt inp p ((46 :: c :: k) ++ rest))
     (hk : alnumBytes (c :: k) = true)
     (hl : isDig c = false → ∀ r w, runeAt (c :: k) = some (r, w) → letterR r = true) (hr : WordEnd rest) (le its) :
-    Step2 inp p le its ⟨if isDig c then .tDotIndex else .tDotIdent, 46 :: c :: k⟩ := by
+    Step2 tg inp p le its ⟨if isDig c then .tDotIndex else .tDotIdent, 46 :: c :: k⟩ := by
   intro w
   obtain ⟨r, wd, hrune, _⟩ := alnumBytes_cons_rune hk
   have h0 : InpAt inp p (46 :: (c :: (k ++ rest))) := by simpa using h
   have h1 : InpAt inp (p + 1) ((c :: k) ++ rest) := by simpa using inpAt_tail h0
-  refine ⟨hdW rest, .ident, L inp p p 1 le its, ?_, ?_⟩
+  refine ⟨hdW rest, .ident, L tg inp p p 1 le its, ?_, ?_⟩
   · simp only [step, lexInsideTag, next_L h0 (by decide), Option.bind_eq_bind, Option.bind_some]
     simp [isSpaceEOL, isSpace, isEndOfLine, lexInsideTagMid, backup_L]
-  · have hr1 := identRest_word T (pre := [46]) (k := c :: k) (rest := rest) (st := p) h hk hr
+  · have hr1 := identRest_word (tg := tg) T (pre := [46]) (k := c :: k) (rest := rest) (st := p) h hk hr
       (if isDig c then .tDotIndex else .tDotIdent) (if isDig c then .tDotIndex else .tDotIdent)
       (Or.inr ⟨lookup_special T 46 _ (Or.inr (Or.inl rfl)), rfl, by split <;> simp, by split <;> simp⟩) (wd : Int) le its
     simp only [step, lexIdent, next_L h0 (by decide), Option.bind_eq_bind, Option.bind_some]
@@ -414,16 +416,16 @@ theorem step_dot (T : LexTableOK) {inp p} {c : UInt8} {k rest : Bytes} (h : InpA
 theorem step_qdot (T : LexTableOK) {inp p} {c : UInt8} {k rest : Bytes} (h : InpAt inp p ((63 :: 46 :: c :: k) ++ rest))
     (hk : alnumBytes (c :: k) = true)
     (hl : isDig c = false → ∀ r w, runeAt (c :: k) = some (r, w) → letterR r = true) (hr : WordEnd rest) (le its) :
-    Step2 inp p le its ⟨if isDig c then .tQuestionDotIndex else .tQuestionDotIdent, 63 :: 46 :: c :: k⟩ := by
+    Step2 tg inp p le its ⟨if isDig c then .tQuestionDotIndex else .tQuestionDotIdent, 63 :: 46 :: c :: k⟩ := by
   intro w
   obtain ⟨r, wd, hrune, _⟩ := alnumBytes_cons_rune hk
   have h0 : InpAt inp p (63 :: (46 :: (c :: (k ++ rest)))) := by simpa using h
   have h1 : InpAt inp (p + 1) (46 :: c :: (k ++ rest)) := inpAt_tail h0
   have h2 : InpAt inp (p + 1 + 1) ((c :: k) ++ rest) := by simpa using inpAt_tail h1
-  refine ⟨hdW rest, .ident, L inp p p 1 le its, ?_, ?_⟩
+  refine ⟨hdW rest, .ident, L tg inp p p 1 le its, ?_, ?_⟩
   · simp only [step, lexInsideTag, next_L h0 (by decide), Option.bind_eq_bind, Option.bind_some]
     simp [isSpaceEOL, isSpace, isEndOfLine, lexInsideTagMid, next_L h1, addPos_L2]
-  · have hr1 := identRest_word T (pre := [63, 46]) (k := c :: k) (rest := rest) (st := p) h hk hr
+  · have hr1 := identRest_word (tg := tg) T (pre := [63, 46]) (k := c :: k) (rest := rest) (st := p) h hk hr
       (if isDig c then .tQuestionDotIndex else .tQuestionDotIdent) (if isDig c then .tQuestionDotIndex else .tQuestionDotIdent)
       (Or.inr ⟨lookup_special T 63 _ (Or.inr (Or.inr rfl)), rfl, by split <;> simp, by split <;> simp⟩) (wd : Int) le its
     simp only [step, lexIdent, next_L h0 (by decide), Option.bind_eq_bind, Option.bind_some]
